@@ -38,6 +38,23 @@ def strategy():
         shapes = [draw(gen.st_shape(cfg["mpd"], max_order=3, max_numel=60)) for _ in range(k)]
         T = draw(st.integers(max(4, cfg["start"] + 1), 8))
         steps = draw(st.lists(gen.st_step(k, 1.0, edits=True), min_size=T, max_size=T))
+        if draw(st.sampled_from([False, False, False, True])):
+            # forced class: equal-shaped parameters with several blocks each (>= 8 active blocks) whose gradients swap roles from step to step, so that
+            # consecutive steps have different active block sets of the same size and the same shapes
+            cfg["mpd"], cfg["merge"] = draw(st.sampled_from([1, 1, 2])), False
+            k = draw(st.integers(3, 4))
+            shapes = [draw(st.sampled_from([[4, 2], [2, 2, 2], [8], [3, 3]]))] * k
+            shapes = [list(x) for x in shapes]
+            pats = [[True, True, False, False][:k], [True, False, True, False][:k], [False, True, True, False][:k], [True, False, False, True][:k], [True] * k]
+            for st_ in steps:
+                st_["mask"] = list(draw(st.sampled_from(pats)))
+                st_.pop("edits", None)
+        if T >= 4 and draw(st.sampled_from([False, False, True])):
+            # a checkpoint is saved after some step and loaded back into both live optimizers later (rollback); see history.checkpoint_op
+            a = draw(st.integers(1, T - 2))
+            b = draw(st.integers(a + 1, T - 1))
+            steps[a] = dict(steps[a], ckpt="save")
+            steps[b] = dict(steps[b], ckpt="load")
         return {"config": {"groups": [{"cfg": cfg, "shapes": shapes}], "pseed": draw(st.integers(0, 10**5))}, "steps": steps,
                 "backend": draw(st.sampled_from(["aot_eager", "aot_eager", "eager"])), "dyn": draw(st.sampled_from(["static", "static", "dynamic", "auto"]))}
 
@@ -135,6 +152,10 @@ def oracle(case: dict) -> Outcome:
         cl.append("mask_change")
     if crossed:
         cl.append("crossed_start")
+    if any(st_.get("ckpt") == "load" for st_ in case["steps"]):
+        cl.append("rollback_into_live_optimizer")
+    if A.stats["blocks"] >= 8 and len({tuple(x) for x in A.shapes[0]}) == 1 and len(A.shapes[0]) >= 3:
+        cl.append("equal_shaped_role_swaps_8plus_blocks")
     fin = A.finish()
     cl += [c for c in fin.classes if c.startswith(("graft_", "precond_", "momentum", "wd_", "beta3", "no_bias"))]
     torch._dynamo.reset()
